@@ -42,6 +42,14 @@ Proof.
 Qed.
 Print Assumptions C14_container_type_strict_instances.
 
+(* instances of tuple / list subclasses and namedtuples (VSeq cls) are a container kind of their own, in both argument orders *)
+Theorem C14_subclass_strict c c' l l' :
+  eq_model (VTuple l) (VSeq c l') = false /\ eq_model (VSeq c l') (VTuple l) = false /\
+  eq_model (VList l) (VSeq c l') = false /\ eq_model (VSeq c l') (VList l) = false /\
+  (c <> c' -> eq_model (VSeq c l) (VSeq c' l') = false).
+Proof. repeat split; try (apply eq_model_kind; simpl; congruence). intros H. apply eq_model_kind. simpl. congruence. Qed.
+Print Assumptions C14_subclass_strict.
+
 Theorem C14_array_shape_and_cells sh c sh' c' : arr_wf sh c -> arr_wf sh' c' ->
   (eq_model (VArr sh c) (VArr sh' c') = true <-> sh = sh' /\ Forall2 (fun a b => eq_model a b = true) c c').
 Proof. exact (eq_model_array_wf sh c sh' c'). Qed.
